@@ -28,6 +28,11 @@ def main():
     threading.Thread(target=vlib._hard_watchdog, daemon=True).start()
     try:
         mod.run(R)
+        # at-scale search: whenever something no longer checks and no small failing input was found; always in the thorough tier
+        if hasattr(mod, "scale") and (tier == "thorough" or os.environ.get("VERIF_SCALE") == "1"
+                                      or ((R.red or R.disagreements) and not R.failures)):
+            R.notes.append("at-scale search run")
+            mod.scale(R)
     except vlib.Hang:   # the implementation never came back from a call: a finding with the last case as its replay
         vlib.watch_disarm()
         R.fail("implementation-hang", f"an implementation call did not return within {R.case_budget:.0f} s (per-case budget)",
